@@ -212,6 +212,71 @@ def rule_export(rep, repo):
                                                                 []))}})
 
 
+def rule_export_per_layer(rep, repo):
+  """R12: a layer's entry in the exported dictionary describes that layer
+  only: exported in a model behind layers of other quantizer kinds (po2,
+  auto_po2, plain) - in every order - the entry has the same keys and values
+  as when the layer is exported alone."""
+  um = repo.module(UM)
+  fn = um.functions["model_save_quantized_weights"]
+  unit = "%s::model_save_quantized_weights" % um.relpath
+  loc = um.loc(fn)
+  fw = Fwd()
+
+  def build():
+    record = {}
+    return [
+        layer_mock("Lpo2", ["QDense"], [qmock("p", "quantized_po2"), None],
+                   [S("p0"), S("p1")], record),
+        layer_mock("Lauto", ["QConv2D"], [
+            qmock("a", "quantized_bits", alpha="auto_po2", bits=4,
+                  keep_negative=True, integer=1,
+                  scale=Tensor(("sym", "ascale"), (4,))),
+            qmock("ab", "quantized_bits")], [S("a0"), S("a1")], record),
+        layer_mock("Lfix", ["QDense"], [qmock("f", "quantized_bits"),
+                                        qmock("fb", "quantized_bits")],
+                   [S("f0"), S("f1")], record),
+        layer_mock("Lbin", ["QDense"], [qmock("b", "binary"), None],
+                   [S("b0"), S("b1")], record)]
+
+  def norm(ent):
+    out = {}
+    for k, v in (ent or {}).items():
+      if isinstance(v, list):
+        out[k] = [show(fw(e.term)) if isinstance(e, Tensor) else (
+            list(e) if isinstance(e, list) else e) for e in v]
+      else:
+        out[k] = show(fw(v.term)) if isinstance(v, Tensor) else v
+    return out
+  alone = {}
+  try:
+    for i in range(4):
+      lyr = build()[i]
+      alone[lyr.attrs["name"]] = norm(run_export(repo, [lyr]).get(
+          lyr.attrs["name"]))
+    import itertools as _it
+    orders = [(0, 1, 2, 3), (3, 2, 1, 0), (1, 3, 0, 2), (2, 0, 3, 1)]
+    for order in orders:
+      layers = build()
+      seq = [layers[i] for i in order]
+      out = run_export(repo, seq)
+      for lyr in seq:
+        name = lyr.attrs["name"]
+        got = norm(out.get(name))
+        cfg = "%s in model %s" % (name, "/".join(l.attrs["name"]
+                                                 for l in seq))
+        rep.check(got == alone[name], "R12", unit,
+                  "entry-depends-on-other-layers",
+                  "%s: entry keys %s / alone %s; differing keys: %s" % (
+                      cfg, sorted(got), sorted(alone[name]),
+                      sorted(k for k in set(got) | set(alone[name])
+                             if got.get(k) != alone[name].get(k))), loc=loc,
+                  instance=cfg)
+  except PyRaise as e:
+    rep.fail("R12", unit, "export-raises", "the export raises %s" % e,
+             loc=loc)
+
+
 def rule_po2_export_values(rep, repo, tier):
   """R4 (values): for real power-of-two quantizer configurations - including
   quadratic_approximation, max_value and leaky slopes - the exported (sign,
@@ -1107,6 +1172,8 @@ def run(rep, repo, tier):
                          "consequences (idempotence, C02) and are not "
                          "decided here")
   rule_export(rep, repo)
+  rule_export_per_layer(rep, repo)
+  rep.require_instances("R12", 16)
   rule_po2_export_values(rep, repo, tier)
   rule_bn_fusing(rep, repo)
   rule_pairing(rep, repo)
